@@ -826,9 +826,21 @@ def m_into_iter(ctx, args):
     return ("iter", ("vals", v))
 
 
+def as_iter(ctx, a, i):
+    """Coerce an argument that is itself an Iterator (e.g. a Range value) into an ('iter', shape)."""
+    if a[0] == "iter":
+        return a
+    if a[0] == "struct" and a[1].endswith("ops::Range") and len(a[3]) == 2:
+        return ("iter", ("range", a[3][0], a[3][1]))
+    t = ctx.arg_ty(i)
+    if t is not None and t[0] == "adt" and t[1].endswith("ops::Range"):
+        return ("iter", ("range", ctx.eng.proj_field(a, 0, "start"), ctx.eng.proj_field(a, 1, "end")))
+    return a
+
+
 @model("std::iter::Iterator::zip")
 def m_zip(ctx, args):
-    a, b = args[0], args[1]
+    a, b = as_iter(ctx, args[0], 0), args[1]
     if b[0] != "iter":
         # zip accepts any IntoIterator
         b = m_into_iter_value(ctx, b, ctx.arg_ty(1))
@@ -849,13 +861,13 @@ def m_into_iter_value(ctx, a, t):
 
 @model("std::iter::Iterator::enumerate")
 def m_enumerate(ctx, args):
-    a = args[0]
+    a = as_iter(ctx, args[0], 0)
     return ("iter", ("enumerate", a[1])) if a[0] == "iter" else ("call", ctx.oq, (a,))
 
 
 @model("std::iter::Iterator::take")
 def m_take(ctx, args):
-    a = args[0]
+    a = as_iter(ctx, args[0], 0)
     n = args[1]
     nn = n[1] if n[0] == "int" else (n[1] if n[0] == "cparam" else n)
     return ("iter", ("take", a[1], nn)) if a[0] == "iter" else ("call", ctx.oq, (a, n))
@@ -863,7 +875,7 @@ def m_take(ctx, args):
 
 @model("std::iter::Iterator::map")
 def m_map(ctx, args):
-    a = args[0]
+    a = as_iter(ctx, args[0], 0)
     if a[0] != "iter":
         return ("call", ctx.oq, (a, args[1]))
     return ("iter", ("map", args[1], next(ctx.eng.nuid), a[1]))
@@ -899,6 +911,7 @@ def realise(ctx, shape):
         eng.binders.pop()
     leaves = tuple(leaves_of(shape))
     n = shape_len(eng, shape)
+    eng.__dict__.setdefault("vmaps", {})[uid] = leaves
     # identity map over by-value leaf: the leaf itself
     if body == ("elem", uid, 0) and len(leaves) == 1 and leaves[0][0] == "vals":
         return leaves[0][1]
@@ -909,7 +922,7 @@ def realise(ctx, shape):
 
 @model("std::iter::Iterator::collect")
 def m_collect(ctx, args):
-    a = args[0]
+    a = as_iter(ctx, args[0], 0)
     if a[0] != "iter":
         return ("call", ctx.oq, (a,))
     vec = realise(ctx, a[1])
@@ -922,7 +935,7 @@ def m_collect(ctx, args):
 
 @model("std::iter::Iterator::sum")
 def m_sum(ctx, args):
-    a = args[0]
+    a = as_iter(ctx, args[0], 0)
     if a[0] != "iter":
         return ("call", ctx.oq, (a,))
     return ("vsum", realise(ctx, a[1]))
